@@ -4,6 +4,7 @@ import (
 	"context"
 	"errors"
 	"fmt"
+	"github.com/cespare/xxhash/v2"
 	"hash/fnv"
 	"math/rand"
 	"sort"
@@ -45,6 +46,8 @@ func (o SOp) String() string {
 		return fmt.Sprintf("store(k%d,v%d)", o.K, o.V)
 	case "cleanup":
 		return fmt.Sprintf("cleanup(needed=%v)", o.Needed)
+	case "walkerr":
+		return fmt.Sprintf("walk(callback fails at entry #%d)", o.K)
 	}
 	return o.Kind
 }
@@ -179,7 +182,7 @@ func genScript0(profile string, seed int64, idx int, tier string) SScript {
 		maxOps = 120
 	}
 	nOps := 8 + rng.Intn(maxOps-8)
-	weights := map[string]int{"w": 30, "r": 26, "d": 10, "xa": 3, "da": 2, "len": 3, "load": 10, "store": 6, "wshort": 4, "cleanup": 0}
+	weights := map[string]int{"w": 30, "r": 26, "d": 10, "xa": 3, "da": 2, "len": 3, "load": 10, "store": 6, "wshort": 4, "cleanup": 0, "walkerr": 3}
 	switch profile {
 	case "c09":
 		weights["xa"], weights["da"], weights["wshort"] = 1, 1, 1
@@ -590,6 +593,37 @@ func (x *seqExec) runScript(id string, sc SScript, profile string) *seqFail {
 			x.d.Ask("be da " + id)
 		case "len":
 			// compared in checkState
+		case "walkerr":
+			// a Walk whose callback gives up at the K-th entry: Walk stops there and reports the callback's error and the number
+			// of entries processed; afterwards the cache works as before (in particular no shard stays locked)
+			_, mb := dumpImpl(b, keys)
+			n, err, fk := b.WalkErr(op.K)
+			wantN, wantErr := len(mb), false
+			if op.K < len(mb) {
+				wantN, wantErr = op.K, true
+			}
+			if n != wantN || (err != nil) != wantErr || (err != nil && !errors.Is(err, errWalkStop)) {
+				return &seqFail{"monitor", "C07", "seq:walk-error", fmt.Sprintf("op #%d %s over %d entries: Walk returned (%d, %v), expected (%d, error: %v)", i, op, len(mb), n, err, wantN, wantErr), i, nil}
+			}
+			x.res.count(fmt.Sprintf("walkerr:failed=%v", wantErr))
+			if fk != "" && b.Kind() != "sync" {
+				// probe: Delete of an absent key living in the shard of the entry at which the callback failed
+				shard := xxhash.Sum64([]byte(fk)) % 128
+				var probe []byte
+				for j := 0; ; j++ {
+					probe = []byte(fmt.Sprintf("walk-probe-%d", j))
+					if xxhash.Sum64(probe)%128 == shard {
+						break
+					}
+				}
+				done := make(chan error, 1)
+				go func() { done <- b.Delete(ctx, probe) }()
+				select {
+				case <-done:
+				case <-time.After(3 * time.Second):
+					return &seqFail{"monitor", "C07", "seq:walk-error-left-lock", fmt.Sprintf("op #%d %s: after the Walk returned the callback's error, a Delete in the shard of the entry it failed at does not return (3s): the shard is still locked", i, op), i, []string{"C08"}}
+				}
+			}
 		case "cleanup":
 			before, _ := dumpImpl(b, keys)
 			_, mb := dumpImpl(b, keys)
